@@ -23,9 +23,14 @@ def real_cls(kind):
     return getattr(smg, kind)
 
 
-def rdesc(d):
+def rdesc(d, np_values=False):
     import stereomolgraph.stereodescriptors as sd
 
+    if np_values:
+        # identifiers as they come out of a numpy index array, the parity as coords.handedness() returns it
+        import numpy as np
+
+        return getattr(sd, d[0])(tuple(a if a is None else np.int64(a) for a in d[1]), d[2] if d[2] is None else np.int8(d[2]))
     return getattr(sd, d[0])(tuple(d[1]), d[2])
 
 
@@ -40,7 +45,7 @@ def rattrs(d):
     return out
 
 
-def build(m, atom_order=None, bond_order=None, kind=None, stereo_order=None, symbols=True):
+def build(m, atom_order=None, bond_order=None, kind=None, stereo_order=None, symbols=True, np_values=False):
     """real object of class m.kind (or kind) built through add_atom / add_bond / set_* only"""
     kind = kind or m.kind
     g = real_cls(kind)()
@@ -61,16 +66,16 @@ def build(m, atom_order=None, bond_order=None, kind=None, stereo_order=None, sym
             sts = [sts[i] for i in stereo_order]
         for t, c in sts:
             if t == "a":
-                g.set_atom_stereo(rdesc(m.astereo[c]))
+                g.set_atom_stereo(rdesc(m.astereo[c], np_values))
             else:
-                g.set_bond_stereo(rdesc(m.bstereo[c]))
+                g.set_bond_stereo(rdesc(m.bstereo[c], np_values))
     if kind == SCRG:
         for c, kd in m.achg.items():
             if kd:
-                g.set_atom_stereo_change(**{k.lower(): rdesc(d) for k, d in kd.items()})
+                g.set_atom_stereo_change(**{k.lower(): rdesc(d, np_values) for k, d in kd.items()})
         for c, kd in m.bchg.items():
             if kd:
-                g.set_bond_stereo_change(**{k.lower(): rdesc(d) for k, d in kd.items()})
+                g.set_bond_stereo_change(**{k.lower(): rdesc(d, np_values) for k, d in kd.items()})
     return g
 
 
@@ -96,6 +101,18 @@ def from_real(g):
         kk = {k: d for k, d in kd if d is not None}
         if kk:
             m.bchg[frozenset(b)] = kk
+    return m
+
+
+def plain(m):
+    """the same reference graph with every descriptor value as a plain Python int / None (after numpy-typed input)"""
+    def pd(d):
+        return (d[0], tuple(None if a is None else int(a) for a in d[1]), None if d[2] is None else int(d[2]))
+
+    m.astereo = {c: pd(d) for c, d in m.astereo.items()}
+    m.bstereo = {c: pd(d) for c, d in m.bstereo.items()}
+    m.achg = {c: {k: pd(d) for k, d in kd.items()} for c, kd in m.achg.items()}
+    m.bchg = {c: {k: pd(d) for k, d in kd.items()} for c, kd in m.bchg.items()}
     return m
 
 
